@@ -36,7 +36,7 @@ class Check(CheckBase):
 
     def cases(self, tier):
         return [{"label": f} for f in ["checkLimits", "checkLimitsTol", "constrainLimits", "point_in_bounds",
-                                       "point_in_bounds_default_tol"]]
+                                       "point_in_bounds_default_tol", "point_in_bounds_history"]]
 
     def config(self, tier, case):
         return engine.Config(logic="QF_LRA")
@@ -44,7 +44,7 @@ class Check(CheckBase):
     def expected_reach(self, tier):
         return ["checkLimits:above", "checkLimits:below", "checkLimits:inside", "tol:above-flag", "tol:above-noflag",
                 "tol:below-flag", "tol:below-noflag", "tol:inside", "constrain", "pib:True", "pib:False",
-                "pibd:True", "pibd:False"]
+                "pibd:True", "pibd:False", "pibh:True", "pibh:False"]
 
     # oracle pieces ---------------------------------------------------------------------------
     @staticmethod
@@ -79,7 +79,22 @@ class Check(CheckBase):
         else:
             y, ylo, yhi = run.real("y"), run.real("ylower"), run.real("yupper")
             run.assume(ylo <= yhi)
-            if f == "point_in_bounds":
+            if f == "point_in_bounds_history":
+                # an earlier call with the same list objects (concrete values), then the caller edits the bounds in
+                # place: the answer must depend on the current contents only (no state kept between calls)
+                tol = run.real("tol")
+                run.assume(tol >= 0)
+                bounds = [[0, 0], [10, 10]]
+                pt = [7, 5]
+                for _ in range(2):
+                    pu.point_in_bounds(pt, bounds, tol)
+                    pu.checkLimitsTol(7, 0, 10, tol)
+                bounds[0][0], bounds[0][1], bounds[1][0], bounds[1][1] = lo, ylo, hi, yhi
+                pt[0], pt[1] = v, y
+                res = pu.point_in_bounds(pt, bounds, tol)
+                tt = tol.t
+                tag = "pibh:"
+            elif f == "point_in_bounds":
                 tol = run.real("tol")
                 run.assume(tol >= 0)
                 res = pu.point_in_bounds([v, y], [[lo, ylo], [hi, yhi]], tol)
@@ -121,7 +136,14 @@ class Check(CheckBase):
         else:
             tol = g["tol"] if "tol" in g else Fraction(1, 10 ** 9)
             y, ylo, yhi = g["y"], g["ylower"], g["yupper"]
-            if ob == "point_in_bounds":
+            if ob == "point_in_bounds_history":
+                bounds, pt = [[0, 0], [10, 10]], [7, 5]
+                for _ in range(2):
+                    pu.point_in_bounds(pt, bounds, tol)
+                bounds[0][0], bounds[0][1], bounds[1][0], bounds[1][1] = lo, ylo, hi, yhi
+                pt[0], pt[1] = v, y
+                got = pu.point_in_bounds(pt, bounds, tol)
+            elif ob == "point_in_bounds":
                 got = pu.point_in_bounds([v, y], [[lo, ylo], [hi, yhi]], tol)
             else:
                 got = pu.point_in_bounds([float(v), float(y)], [[float(lo), float(ylo)], [float(hi), float(yhi)]])
